@@ -68,6 +68,10 @@ REJECT = ["(1", "[1, 2", "{ var a = 1;", "f(1, 2", "'abc", '"abc', "'abc\n'", "/
           "var r = /ab+c;\nvar half = 10 / 2;\nr", "var r = /ab+c\n/.test('x')", "f(/a\n/)", "var r = /[a\n]/", "x = /a\\\nb/", "x = /a\rb/", "x = /a\u2028b/", "x = /a\u2029/", "x = /a\\\r/",
           # ECMA-262 13.6: a unary operator may not stand directly before ** (neither grouping is meant)
           "-2 ** 2", "!1 ** 2", "typeof 1 ** 2", "2 ** -2 ** 2", "void 0 ** 1", "+1 ** 2", "~1 ** 2", "var a = 1; delete a ** 2", "var a = 1; -a ** 2", "- -2 ** 2",
+          # a number does not start with a zero followed by a digit (legacy octal: an error in strict code, and never decimal)
+          "010", "08", "00", "09.5", "var n = 017", "[0, 01]", "x = 1 + 007",
+          # statements on one line are separated by a semicolon (automatic semicolon insertion needs a line break, a brace or the end)
+          "1 2", "var a = 1 var b = 2", "'it''s'", "var x = 5 x", "if (1) 2 else 3", "var a = 1; a++ a", "f() g()", "x = 1 y = 2", "return 1 2", "var o = {a: 1} var p = 2", "break lbl x", "throw 1 2",
           # elements of an array literal are separated by commas
           "[[1] 5]", "[1 2]", "[[1] [2] 3]", "[1, [2] 3]", "[[1], [2] 'x']", "[{} 1]", "[[[1]] 2]"]
 def _invalid_targets():
@@ -90,7 +94,7 @@ def _invalid_targets():
 
 
 ACCEPT_SAME = [("1+2*3", " 1 +\t2 /*c*/ * // d\n 3 "), ("var a=[1,2,3];a[1]", "var a = [ 1 , 2 , 3 ] ;\n a [ 1 ]"), ("(function(x){return x*2})(4)", "( function ( x ) { return x * 2 } ) ( 4 )"),
-               ("'a'+\"b\"", "(('a')) + ((\"b\"))"), ("0x1F+0b11+0o17+1e2+.5", "31 + 3 + 15 + 100 + 0.5"), ("'\\x41\\u0042\\n\\'\\\"'", "\"AB\\n'\\\"\""), ("1.50e+1", "15"), ("010 + 1", "11"),
+               ("'a'+\"b\"", "(('a')) + ((\"b\"))"), ("0x1F+0b11+0o17+1e2+.5", "31 + 3 + 15 + 100 + 0.5"), ("'\\x41\\u0042\\n\\'\\\"'", "\"AB\\n'\\\"\""), ("1.50e+1", "15"), ("0o10 + 1", "9"),
                ("var x=5;x>3?'y':'n'", "var x = 5 ; ( ( x ) > ( 3 ) ) ? ( 'y' ) : ( 'n' )"), ("var o={a:{b:[1,{c:2}]}};o.a.b[1].c", "var o = { a : { b : [ 1 , { c : 2 } ] } } ; ( ( ( o . a ) . b ) [ 1 ] ) . c"),
                ("var i=0,s=0;for(;i<3;i++){s+=i}s", "var i = 0 , s = 0 ;\nfor ( ; i < 3 ; i ++ ) { s += i }\ns"), ("2**3**2", "2 ** (3 ** 2)"), ("(-2)**2", "4"), ("-(2**2)", "-4"), ("2**-2", "0.25"), ("var a=2;++a**2", "9"), ("var a=2;a++**2+a", "7"),
                ("var b=2;b**=3;b", "8"), ("var b=2,c=3;b**=c**=2;[b,c].join()", "'512,9'"), ("var o={x:2};o.x**=3;o.x", "8"),
